@@ -234,6 +234,13 @@ pub fn dispatch(op: &str, a: &[String]) -> String {
             }
             s
         }
-        _ => format!("err unknown-op {}", op),
+        _ => {
+            for f in crate::COMPONENTS {
+                if let Some(r) = f(op, a) {
+                    return r;
+                }
+            }
+            format!("err unknown-op {}", op)
+        }
     }
 }
